@@ -260,6 +260,7 @@ func checkC06(c *Ctx, r *Report) {
 	ruleHelperShape(c, r, "C06.e", helperShape{Fn: "(definitions.RouteMetadata).GetValueReturnType", AllowedCalls: []string{"builtin.len"}, MustFields: []string{"Responses"}, MustConsts: []string{"1", "0"},
 		Why: "the value return type is Responses[0] exactly when the method returns (value, error)"})
 
+	ruleIRWriters(c, r, "C06.a", "definitions.FuncParam", "definitions.ParamMeta", "definitions.FuncReturnValue", "definitions.ErrorResponse", "definitions.TypeMetadata", "definitions.RouteMetadata")
 	// every element filter in these packages is a reviewed one
 	ruleSkipInventory(c, r, "C06.a", loadSkipTable(c.VerifDir), 6, "generator/swagen", "core/metadata")
 }
